@@ -269,6 +269,26 @@ def validate():
                 if r_real != r_model or s_real != s_model:
                     bad.append(f"zarr model disagrees with zarr {zarr.__version__}: {label} path={path} pre={pre}: real {r_real} {s_real}, model {r_model} {s_model}")
                 n += 1
+    # an array that is OPENED (not created) reports the layout it was created with, not the one a later create call asked for
+    import numpy as np
+    from zarr.storage import MemoryStore
+
+    for path in (None, "sub"):
+        for (sh0, ch0) in (((4,), (2,)), ((5,), (3,)), ((4,), (1,))):
+            st = MemoryStore()
+            zarr.create_array(store=st, name=path, shape=sh0, dtype="int32", chunks=ch0)
+            m = ZarrModel({_join(path): Node("array", None, True, dict(shape=sh0, dtype=np.dtype("int32"), chunks=ch0))})
+            for z, store in ((zarr, st), (m, None)):
+                try:
+                    z.create_array(store=store, name=path, shape=(4,), dtype="float64", chunks=(2,))
+                    bad.append("create_array over an existing array did not raise")
+                except Exception as ex:  # noqa: BLE001
+                    if type(ex).__name__ != "ContainsArrayError":
+                        bad.append(f"create_array over an existing array: {type(ex).__name__}")
+                a = z.open_array(store=store, path=path)
+                if (tuple(a.shape), tuple(a.chunks), np.dtype(a.dtype)) != (sh0, ch0, np.dtype("int32")):
+                    bad.append(f"opened array reports {a.shape} {a.chunks} {a.dtype}, created with {sh0} {ch0} int32 ({'real' if z is zarr else 'model'})")
+            n += 1
     if bad:
         raise AssertionError("\n".join(bad))
     return n
